@@ -893,7 +893,8 @@ func runC08(c *ctx) error {
 			}
 			dup := false
 			for _, o := range dids {
-				if o.Suffix == d.Suffix {
+				// (also when only one commitment coincides: "the other DID's delta / recovery commitment" must be another value)
+				if o.Suffix == d.Suffix || o.Create.Spec.NextUpd == d.Create.Spec.NextUpd || o.Create.Spec.NextRec == d.Create.Spec.NextRec {
 					dup = true
 				}
 			}
